@@ -1533,6 +1533,8 @@ class Interp(object):
         if isinstance(v, Unknown):
             return self.decide(('truth', v.tag))
         if isinstance(v, SymPos):
+            if v.part in ('line', 'end_line') and v.delta >= 0 and not v.lens:
+                return True       # line numbers start at 1
             raise Uninterpretable('truth value of a position')
         raise Uninterpretable('truth value of %r' % (v,))
 
